@@ -131,6 +131,7 @@ class TextSemantics(object):
         if not (isinstance(text, Opaque) and text.tag == "text"):
             raise AnalysisError("C13.sem", "the regex is not searched in the text argument itself", node, module)
         self.patterns.append((rx.re_pattern, rx.re_flagset, node, module))
+        self.via_findall = getattr(self, "via_findall", False) or not as_match
         if self.searched:
             raise AnalysisError("C13.sem", "more than one regex search on an evaluated path", node, module)
         self.searched = True
@@ -146,6 +147,7 @@ class TextSemantics(object):
             if as_match:
                 m = Opaque("match:%d" % i)
                 m.cand = f
+                m.rx = rx
                 items.append((TRUE, m))
             else:
                 items.append((TRUE, f))
@@ -194,6 +196,32 @@ class TextSemantics(object):
         if isinstance(recv, Opaque) and getattr(recv, "cand", None) is not None:
             if name == "group" and (not args or (len(args) == 1 and isinstance(args[0], Const) and args[0].v == 0)):
                 return recv.cand
+            if name == "group" and len(args) == 1 and isinstance(args[0], Const) and isinstance(args[0].v, (int, str)) and getattr(recv, "rx", None) is not None:
+                # a numbered / named group of the match: the pattern is data, evaluated on each
+                # representative candidate (which is the whole match)
+                import re as _re
+
+                flags = 0
+                for fl in recv.rx.re_flagset:
+                    flags |= getattr(_re, fl)
+                try:
+                    cre = _re.compile(recv.rx.re_pattern, flags)
+                except _re.error:
+                    raise AnalysisError("C13.regex", "the candidate regex does not compile", node, module)
+                g = args[0].v
+                if (isinstance(g, int) and not (0 <= g <= cre.groups)) or (isinstance(g, str) and g not in cre.groupindex):
+                    self.ev.hazard(st, "IndexError", node, module, Const(True), "no such group %r in the candidate regex" % (g,))
+                    raise Dead()
+
+                def grp(s_):
+                    mm = cre.fullmatch(s_)
+                    if mm is None:
+                        # a representative the pattern would not return as a whole: the group is
+                        # what the pattern finds at its start
+                        mm = cre.match(s_)
+                    return mm.group(g) if mm is not None else None
+
+                return st.folder().fold(grp, [recv.cand])
             raise AnalysisError("C13.sem", "match-object method %s is not modelled" % name, node, module)
         if isinstance(recv, (Fin, Const)) and self.is_token(recv) and not (isinstance(recv, Const) and recv.v is None):
             if name == "clean_vector" and not args and not kwargs:
